@@ -273,3 +273,40 @@ pub fn topo(_args: &[String]) {
         out.put(&o);
     });
 }
+
+
+/// Hand-made histories that no well-behaved server produces but that the code accepts: resolve must still return.
+pub fn probes(_args: &[String]) {
+    let mut out = Out::new();
+    let ev = |id: &str, ty: &str, sender: &str, key: &str, auth: Vec<&str>, ts: u64, c: Value| {
+        json!({"id": id, "type": ty, "sender": sender, "haskey": true, "key": key, "prev": ["$create"], "auth": auth, "roomserver": "s1", "idserver": "s1", "ts": ts, "c": c})
+    };
+    let pl = |n: i64| json!({"pl": {"users": {"@c:s1": 100, "@a:s1": n}, "events": {}, "notifications": {}, "userkeysvalid": true}});
+    // room versions 1 and 2 have server-chosen event IDs: two power-levels events can name each other as auth events
+    let case = json!({
+        "v": 1,
+        "events": [
+            {"id": "$create", "type": "m.room.create", "sender": "@c:s1", "haskey": true, "key": "", "prev": [], "auth": [], "roomserver": "s1", "idserver": "s1", "ts": 0,
+             "c": {"hascreator": true, "creator": "@c:s1", "federate": true}},
+            ev("$ima", "m.room.member", "@c:s1", "@c:s1", vec!["$create"], 1, json!({"membership": "join", "jauth": "", "tpi": {"present": false}})),
+            ev("$pl1", "m.room.power_levels", "@c:s1", "", vec!["$create", "$ima", "$pl2"], 2, pl(50)),
+            ev("$pl2", "m.room.power_levels", "@c:s1", "", vec!["$create", "$ima", "$pl1"], 3, pl(60)),
+            ev("$t1", "m.room.topic", "@c:s1", "", vec!["$create", "$ima", "$pl1"], 4, json!({"tag": 1})),
+            ev("$t2", "m.room.topic", "@c:s1", "", vec!["$create", "$ima", "$pl2"], 5, json!({"tag": 2})),
+        ],
+        "sets": [
+            [["m.room.create", "", "$create"], ["m.room.member", "@c:s1", "$ima"], ["m.room.power_levels", "", "$pl1"], ["m.room.topic", "", "$t1"]],
+            [["m.room.create", "", "$create"], ["m.room.member", "@c:s1", "$ima"], ["m.room.power_levels", "", "$pl2"], ["m.room.topic", "", "$t2"]],
+        ],
+        "chains": [["$create", "$ima", "$pl1", "$pl2"], ["$create", "$ima", "$pl1", "$pl2"]],
+    });
+    let (tx, rx) = std::sync::mpsc::channel();
+    std::thread::spawn(move || {
+        let b = build(&case);
+        let rules = auth_rules(1);
+        let r = guard(|| resolve(&rules, &b.sets, b.chains.clone(), |id| b.pdus.get(id).cloned()).map(|_| ()).map_err(|e| e.to_string()));
+        let _ = tx.send(match r { Ok(Ok(())) => "ok".to_owned(), Ok(Err(e)) => format!("error: {e}"), Err(p) => format!("panic: {p}") });
+    });
+    let res = rx.recv_timeout(std::time::Duration::from_secs(20));
+    out.put(&json!({"probe": "power-levels-events-that-name-each-other-as-auth-events", "returned": res.is_ok(), "result": res.unwrap_or_else(|_| "no result after 20 s".into())}));
+}
